@@ -164,6 +164,15 @@ pub const PALETTE: &[Pal] = &[
     p("(list (cons #t 1))", "list:promise", List, false, None),
     p("(list (cons #f (lambda () 1)))", "list:promise", List, false, None),
     p("(c06-nest 60)", "list:deep", List, false, None),
+    // programs as data (what `eval` and `apply` are handed): procedure, continuation and macro
+    // objects inside a quote form and in operator position, a malformed special form
+    p("(list 'quote car)", "list:code-with-object", List, true, None),
+    p("(list 'quote (lambda (x) x))", "list:code-with-object", List, false, None),
+    p("(list 'quote c06-k)", "list:code-with-object", List, false, None),
+    p("(list 'quote (car (list cond)))", "list:code-with-object", List, false, None),
+    p("(list car ''(1 2))", "list:code-with-object", List, false, None),
+    p("(list 'if)", "list:code", List, false, None),
+    p("(list '+ 1 2)", "list:code", List, false, None),
     // procedures: builtin, variadic builtin, closures of arity 1, 0, 2 and variadic
     p("car", "proc:builtin", Proc, true, None),
     p("+", "proc:builtin", Proc, false, None),
